@@ -208,7 +208,6 @@ class Tokenizer:
                             'STRING',
                             'URI',
                             'HASH',
-                            'COMMENT',
                             'FUNCTION',
                             'INVALID',
                             'UNICODE-RANGE',
